@@ -35,14 +35,56 @@ func bump(x *Exec, st *State, g string, by string) {
 	st.Ghost[g] = x.vc.S.def("g_"+sanitize(strings.SplitN(g, ":", 2)[0]), ic(add(ghost(st, g), by))).T
 }
 
+// Per-object ghost counters (bytes written to a writer, position in a stream, ...) live in ghost
+// objects of the cell memory: counter c of object ref is the cell (GH_c, ref).  Whether two
+// expressions denote the same object is then decided by the solver, not by comparing terms; the
+// counters follow the memory through joins, and old(...) works on them.  Ghost objects are stable:
+// no callee writes them.  All counters are 0 at entry.
+var ghostObjs = []string{"GH_WRITTEN", "GH_WCALLS", "GH_SPOS", "GH_TRACK"}
+
+func ghostObj(x *Exec, name string) string {
+	if !x.vc.S.decl["ghostobj:"+name] {
+		x.vc.S.decl["ghostobj:"+name] = true
+		k := 11
+		for i, n := range ghostObjs {
+			if n == name {
+				k += i
+			}
+		}
+		// negative: every reference of the program is >= 0, so a ghost object aliases nothing
+		x.vc.S.raw(fmt.Sprintf("(define-fun %s () Int (- %d))", name, k))
+		x.vc.stable = append(x.vc.stable, name)
+		x.vc.nonNil[name] = true
+	}
+	return name
+}
+
+func gget(x *Exec, st *State, obj, ref string) string {
+	// all counters are 0 at entry: stated for each object whose counter is ever read (instances
+	// of "forall o. M0(GH, o) = 0"; a quantified axiom here slows every query down)
+	if k := "ghostzero:" + obj + "|" + ref; !x.vc.S.decl[k] {
+		x.vc.S.decl[k] = true
+		x.vc.S.raw(fmt.Sprintf("(assert (= (%s %s %s) 0))", x.vc.baseMem, ghostObj(x, obj), ref))
+	}
+	return x.vc.read(st.Mem, ghostObj(x, obj), ref)
+}
+
+func gset(x *Exec, st *State, obj, ref, val string) {
+	x.vc.store(st, ghostObj(x, obj), ref, Val{ic(x.vc.S.def("g_"+strings.ToLower(obj[3:]), ic(val)).T)})
+}
+
+func gadd(x *Exec, st *State, obj, ref, by string) { gset(x, st, obj, ref, add(gget(x, st, obj, ref), by)) }
+
 func raise(x *Exec, st *State, g string, cond string) {
 	st.Ghost[g] = x.vc.S.def("g_"+g, ic(ite(cond, "1", ghost(st, g)))).T
 }
 
 // streamKey: the object a reader value denotes (interface: the pointer inside; pointer: itself)
 func streamKey(x *Exec, t types.Type, v Val) (key, ref string) {
-	if _, ok := t.Underlying().(*types.Interface); ok && len(v) >= 3 {
-		return x.vc.canon(v[1].T), v[1].T
+	if t != nil {
+		if _, ok := t.Underlying().(*types.Interface); ok && len(v) >= 3 {
+			return x.vc.canon(v[1].T), v[1].T
+		}
 	}
 	return x.vc.canon(v[0].T), v[0].T
 }
@@ -56,11 +98,13 @@ func declStreams(x *Exec) {
 // open: (f *os.File, err error); err != nil <=> f == nil; a new stream at position 0
 func streamOpen(x *Exec, fr *frame, ins ssa.CallInstruction, c *ssa.CallCommon, args []Val, st *State, r string) (Val, string) {
 	used("Open(path): returns (f, nil) with f a new stream at position 0 of ssize(f) bytes, or (nil, err)")
+	before := st.Alloc
 	res := x.opaqueCall("Open", c.Signature().Results(), st, r)
 	x.vc.S.fact(r, eq(eq(res[0].T, "0"), not(eq(res[2].T, "0"))))
-	x.vc.S.fact(r, implies(not(eq(res[0].T, "0")), and(sx(">", res[0].T, fmt.Sprint(maxGlobals)), eq(res[1].T, "0"))))
-	key, _ := streamKey(x, c.Signature().Results().At(0).Type(), res)
-	st.Ghost["spos:"+key] = "0"
+	// the file object is new: no earlier value denotes it
+	x.vc.S.fact(r, implies(not(eq(res[0].T, "0")), and(sx(">=", res[0].T, before), eq(res[1].T, "0"))))
+	gset(x, st, "GH_SPOS", res[0].T, "0")
+	gset(x, st, "GH_TRACK", res[0].T, "1")
 	raise(x, st, "envfail", not(eq(res[2].T, "0")))
 	return res, r
 }
@@ -77,47 +121,41 @@ func streamAliasIface(x *Exec, fr *frame, ins ssa.CallInstruction, c *ssa.CallCo
 	return args[0], r
 }
 
-func trackedStream(st *State, key string) bool {
-	_, ok := st.Ghost["spos:"+key]
-	return ok
-}
+// tracked: the object is a stream opened in the function under analysis (its position is known)
+func tracked(x *Exec, st *State, ref string) string { return eq(gget(x, st, "GH_TRACK", ref), "1") }
 
 // (*bufio.Reader).Discard(n): skips n bytes, or fails when the stream is shorter / unreadable
 func streamDiscard(x *Exec, fr *frame, ins ssa.CallInstruction, c *ssa.CallCommon, args []Val, st *State, r string) (Val, string) {
-	key, ref := streamKey(x, c.Args[0].Type(), args[0])
-	if !trackedStream(st, key) {
-		return x.havocCall("(*bufio.Reader).Discard", c.Signature().Results(), args, c.Args, st, r), r
-	}
+	_, ref := streamKey(x, c.Args[0].Type(), args[0])
 	used("(*bufio.Reader).Discard(n): advances the stream by n and returns nil when n bytes remain; otherwise an error")
+	tr := tracked(x, st, ref)
+	pos := gget(x, st, "GH_SPOS", ref)
 	res := x.opaqueCall("Discard", c.Signature().Results(), st, r)
 	n := args[1][0].T
-	pos := ghost(st, "spos:"+key)
 	f := x.vc.S.freshConst("iofail", true)
 	short := sx(">", n, sub(sx("ssize", ref), pos))
 	ok := and(not(f), not(short), sx(">=", n, "0"))
-	x.vc.S.fact(r, eq(eq(res[1].T, "0"), ok))
-	st.Ghost["spos:"+key] = x.vc.S.def("g_spos", ic(ite(ok, add(pos, n), pos))).T
-	raise(x, st, "envfail", f)
-	raise(x, st, "shortskip", and(not(f), or(short, sx("<", n, "0"))))
+	x.vc.S.fact(r, implies(tr, eq(eq(res[1].T, "0"), ok)))
+	np := x.vc.S.freshConst("skippos", false)
+	gset(x, st, "GH_SPOS", ref, ite(tr, ite(ok, add(pos, n), pos), np))
+	raise(x, st, "envfail", or(and(tr, f), and(not(tr), not(eq(res[1].T, "0")))))
+	raise(x, st, "shortskip", and(tr, not(f), or(short, sx("<", n, "0"))))
 	return res, r
 }
 
 // (*os.File).Seek(off, whence): with whence == io.SeekStart the position becomes off
 func streamSeek(x *Exec, fr *frame, ins ssa.CallInstruction, c *ssa.CallCommon, args []Val, st *State, r string) (Val, string) {
-	key, _ := streamKey(x, c.Args[0].Type(), args[0])
-	if !trackedStream(st, key) {
-		return x.havocCall("(*os.File).Seek", c.Signature().Results(), args, c.Args, st, r), r
-	}
+	_, ref := streamKey(x, c.Args[0].Type(), args[0])
 	used("(*os.File).Seek(off, io.SeekStart): positions the stream at off and returns nil, or fails")
+	pos := gget(x, st, "GH_SPOS", ref)
 	res := x.opaqueCall("Seek", c.Signature().Results(), st, r)
 	off, whence := args[1][0].T, args[2][0].T
-	pos := ghost(st, "spos:"+key)
 	f := x.vc.S.freshConst("iofail", true)
 	ok := and(not(f), sx(">=", off, "0"), eq(whence, "0"))
 	x.vc.S.fact(r, implies(ok, eq(res[1].T, "0")))
 	x.vc.S.fact(r, implies(f, not(eq(res[1].T, "0"))))
 	np := x.vc.S.freshConst("seekpos", false)
-	st.Ghost["spos:"+key] = x.vc.S.def("g_spos", ic(ite(ok, off, ite(eq(res[1].T, "0"), np, pos)))).T
+	gset(x, st, "GH_SPOS", ref, ite(ok, off, ite(eq(res[1].T, "0"), np, pos)))
 	raise(x, st, "envfail", not(eq(res[1].T, "0")))
 	return res, r
 }
@@ -129,23 +167,18 @@ func copySource(x *Exec, fr *frame, ins ssa.CallInstruction, srcV ssa.Value, src
 		d, _ := x.drain(fr, ins, x.val(fr, mi.X), ct, fn, st, r, "io.Copy")
 		return d, "", func(string) {}
 	}
-	key, ref := streamKey(x, srcV.Type(), src)
-	if trackedStream(st, key) {
-		pos := ghost(st, "spos:"+key)
-		rem := x.vc.S.def("remaining", ic(ite(eq(ref, "0"), "0", sub(sx("ssize", ref), pos)))).T
-		x.vc.S.fact(r, sx(">=", rem, "0"))
-		take := rem
-		if limit != "" {
-			take = x.vc.S.def("take", ic(ite(sx("<", limit, rem), ite(sx("<", limit, "0"), "0", limit), rem))).T
-		}
-		return take, ref, func(k string) { st.Ghost["spos:"+key] = x.vc.S.def("g_spos", ic(add(pos, k))).T }
-	}
-	k := x.vc.S.freshConst("copied", false)
-	x.vc.S.fact(r, sx(">=", k, "0"))
+	_, ref = streamKey(x, srcV.Type(), src)
+	tr := tracked(x, st, ref)
+	pos := gget(x, st, "GH_SPOS", ref)
+	free := x.vc.S.freshConst("copied", false)
+	x.vc.S.fact(r, sx(">=", free, "0"))
+	rem := x.vc.S.def("remaining", ic(ite(eq(ref, "0"), "0", ite(tr, sub(sx("ssize", ref), pos), free)))).T
+	x.vc.S.fact(r, sx(">=", rem, "0"))
+	take := rem
 	if limit != "" {
-		x.vc.S.fact(r, sx("<=", k, ite(sx(">=", limit, "0"), limit, "0")))
+		take = x.vc.S.def("take", ic(ite(sx("<", limit, rem), ite(sx("<", limit, "0"), "0", limit), rem))).T
 	}
-	return k, "", func(string) {}
+	return take, ref, func(k string) { gset(x, st, "GH_SPOS", ref, add(pos, k)) }
 }
 
 // io.Copy(dst, src): everything that remains of src; an error only when reading or writing fails
@@ -156,13 +189,13 @@ func streamCopy(x *Exec, fr *frame, ins ssa.CallInstruction, c *ssa.CallCommon, 
 	f := x.vc.S.freshConst("iofail", true)
 	bad := f
 	if ref != "" {
-		bad = or(f, eq(ref, "0")) // a nil *os.File cannot be read
+		bad = or(f, and(eq(ref, "0"), tracked(x, st, ref))) // a nil *os.File cannot be read
 	}
 	x.vc.S.fact(r, eq(eq(res[1].T, "0"), not(bad)))
 	x.vc.S.fact(r, and(sx("<=", "0", res[0].T), sx("<=", res[0].T, n), implies(not(bad), eq(res[0].T, n))))
 	adv(res[0].T)
-	bump(x, st, ghostWritten(x, args[0]), res[0].T)
-	bump(x, st, "wcalls:"+x.vc.canon(args[0][1].T), "1")
+	gadd(x, st, "GH_WRITTEN", args[0][1].T, res[0].T)
+	gadd(x, st, "GH_WCALLS", args[0][1].T, "1")
 	raise(x, st, "envfail", f)
 	return res, r
 }
@@ -179,8 +212,8 @@ func streamCopyN(x *Exec, fr *frame, ins ssa.CallInstruction, c *ssa.CallCommon,
 	x.vc.S.fact(r, eq(eq(res[1].T, "0"), eq(res[0].T, want)))
 	x.vc.S.fact(r, implies(f, not(eq(res[1].T, "0"))))
 	adv(res[0].T)
-	bump(x, st, ghostWritten(x, args[0]), res[0].T)
-	bump(x, st, "wcalls:"+x.vc.canon(args[0][1].T), "1")
+	gadd(x, st, "GH_WRITTEN", args[0][1].T, res[0].T)
+	gadd(x, st, "GH_WCALLS", args[0][1].T, "1")
 	raise(x, st, "envfail", f)
 	raise(x, st, "shortcopy", and(not(f), not(eq(res[1].T, "0"))))
 	return res, r
@@ -200,8 +233,8 @@ func streamBinaryWrite(x *Exec, fr *frame, ins ssa.CallInstruction, c *ssa.CallC
 		}
 	}
 	x.vc.S.fact(r, sx(">=", n, "0"))
-	bump(x, st, ghostWritten(x, args[0]), ite(eq(res[0].T, "0"), n, "0"))
-	bump(x, st, "wcalls:"+x.vc.canon(args[0][1].T), "1")
+	gadd(x, st, "GH_WRITTEN", args[0][1].T, ite(eq(res[0].T, "0"), n, "0"))
+	gadd(x, st, "GH_WCALLS", args[0][1].T, "1")
 	raise(x, st, "envfail", not(eq(res[0].T, "0")))
 	return res, r
 }
@@ -213,8 +246,19 @@ func streamConnWrite(x *Exec, fr *frame, ins ssa.CallInstruction, c *ssa.CallCom
 	bump(x, st, "connwrites", "1")
 	ln := args[1][2].T
 	x.vc.S.fact(r, implies(eq(res[1].T, "0"), eq(res[0].T, ln)))
-	bump(x, st, ghostWritten(x, args[0]), ite(eq(res[1].T, "0"), ln, "0"))
-	bump(x, st, "wcalls:"+x.vc.canon(args[0][1].T), "1")
+	gadd(x, st, "GH_WRITTEN", args[0][1].T, ite(eq(res[1].T, "0"), ln, "0"))
+	gadd(x, st, "GH_WCALLS", args[0][1].T, "1")
+	raise(x, st, "envfail", not(eq(res[1].T, "0")))
+	return res, r
+}
+
+// io.ReadFull(r, buf): fills buf (and nothing else) or fails
+func streamReadFull(x *Exec, fr *frame, ins ssa.CallInstruction, c *ssa.CallCommon, args []Val, st *State, r string) (Val, string) {
+	used("io.ReadFull(r, buf): writes only buf; returns (len(buf), nil) or an error")
+	buf := args[1]
+	x.vc.havocMem(st, not(eq("r", buf[0].T)))
+	res := x.opaqueCall("io.ReadFull", c.Signature().Results(), st, r)
+	x.vc.S.fact(r, implies(eq(res[1].T, "0"), eq(res[0].T, buf[2].T)))
 	raise(x, st, "envfail", not(eq(res[1].T, "0")))
 	return res, r
 }
@@ -227,6 +271,7 @@ func streamsOver() map[string]stdModel {
 	m["(*os.File).Seek"] = streamSeek
 	m["(hotline.FileStore).Open"], m["os.Open"] = streamOpen, streamOpen
 	m["encoding/binary.Write"] = streamBinaryWrite
+	m["io.ReadFull"] = streamReadFull
 	for _, w := range []string{"(io.ReadWriteCloser).Write", "(io.Writer).Write", "(io.ReadWriter).Write"} {
 		m[w] = streamConnWrite
 	}
